@@ -253,6 +253,58 @@ func init() {
 					toMax = s
 				}
 			}
+			if decay == nil && len(sts) == 1 {
+				// the same computation on a local value (the shape an extracted helper has): one store of
+				// phi(phi(decayed, Min), Max), each bound taken on the edge that the comparison guards
+				st := sts[0]
+				bounded := func(t *Term, suffix string, op string) (*Term, bool) {
+					phi, isPhi := t.Instr.(*ssa.Phi)
+					if t.Op != "phi" || !isPhi || len(phi.Edges) != 2 {
+						return nil, false
+					}
+					for i, ed := range phi.Edges {
+						bt := fa.Term(ed)
+						if !strings.HasSuffix(bt.String(), suffix) {
+							continue
+						}
+						inner := fa.Term(phi.Edges[1-i])
+						pred := phi.Block().Preds[i]
+						gs := fa.GuardsOfBlock(pred)
+						for si, sb := range pred.Succs {
+							if sb == phi.Block() && len(pred.Succs) == 2 && pred.Succs[0] != pred.Succs[1] {
+								if g, ok := fa.EdgeFact(pred, si); ok {
+									gs = append(gs, g)
+								}
+							}
+						}
+						for _, g := range gs {
+							rs := relsOf(g)
+							if len(rs) == 1 && relImplies(rs[0], Rel{A: inner.String(), Op: op, B: bt.String()}) {
+								return inner, true
+							}
+						}
+					}
+					return nil, false
+				}
+				final := fa.Term(st.Val)
+				afterMin, okMax := bounded(final, ".RewardWeightRange.Max", ">")
+				var decayed *Term
+				okMin := false
+				if okMax {
+					decayed, okMin = bounded(afterMin, ".RewardWeightRange.Min", "<")
+				}
+				if !okMax || !okMin || !decayed.IsCall("math.LegacyDec.Mul") {
+					r.Bad(k, "decay step", "no RewardWeight := clamp(RewardWeight.Mul(multiplier), Min, Max): the stored weight is "+final.String(), nil, r.P(st))
+					return
+				}
+				r.OK(k, "clamped from below", "weight < Min => Min, on the decayed value", r.P(st))
+				r.OK(k, "clamped from above", "weight > Max => Max, on the (possibly raised) value", r.P(st))
+				r.OK(k, "both clamp tests precede the update", "the stored value is defined by both comparisons", r.P(up))
+				asset := argT(fa, up, 1)
+				_, w := ovrGet(asset, ".RewardWeight")
+				r.Check(w != nil && w.Eq(final), k, "the clamped in-memory asset is what gets applied", "UpdateAllianceAsset(*asset) after the store", "the asset passed to UpdateAllianceAsset does not carry the clamped weight: "+asset.String(), r.P(up))
+				return
+			}
 			if decay == nil {
 				r.Bad(k, "decay step", "no RewardWeight := RewardWeight.Mul(multiplier) store", nil, e.Pos(fn.Pos()))
 				return
@@ -456,7 +508,34 @@ func init() {
 			v := argT(cfa, cv[0], 1)
 			r.Check(v.Op == "extract" && v.Args[0].IsCall("keeper.Keeper.GetAllianceValidator") && v.Args[0].CallArgsT()[2].String() == "$valAddr", k, "validator of this iteration", "GetAllianceValidator(valAddr)", "closure settles "+v.String(), r.P(cv[0]))
 			as := argT(cfa, sn[0], 1)
-			r.Check(as.String() == "*(^asset)", k, "snapshot of the stored asset", "the captured asset variable (stored record)", "snapshot is taken of "+as.String(), r.P(sn[0]))
+			// the stored record is identified by its role: the variable that receives GetAssetByDenom(update.Denom)
+			var storedAlloc *ssa.Alloc
+			for _, g := range CallsTo(fn, "keeper.Keeper.GetAssetByDenom") {
+				for _, b := range fn.Blocks {
+					for _, in := range b.Instrs {
+						if st, ok := in.(*ssa.Store); ok {
+							if ex, ok := st.Val.(*ssa.Extract); ok && ex.Index == 0 && ex.Tuple == g.Value() {
+								storedAlloc, _ = st.Addr.(*ssa.Alloc)
+							}
+						}
+					}
+				}
+			}
+			okAs := false
+			if as.Op == "deref" && len(as.Args) == 1 && as.Args[0].Op == "fv" && storedAlloc != nil {
+				for _, b := range fn.Blocks {
+					for _, in := range b.Instrs {
+						if mc, ok := in.(*ssa.MakeClosure); ok && mc.Fn == ssa.Value(cl) {
+							for i, fv := range cl.FreeVars {
+								if fv.Name() == as.Args[0].Name && i < len(mc.Bindings) && mc.Bindings[i] == ssa.Value(storedAlloc) {
+									okAs = true
+								}
+							}
+						}
+					}
+				}
+			}
+			r.Check(okAs, k, "snapshot of the stored asset", "the captured variable that holds GetAssetByDenom's result (stored record)", "snapshot is taken of "+as.String(), r.P(sn[0]))
 			// no write to the captured asset before the iteration
 			it := CallsTo(fn, "keeper.Keeper.IterateAllianceValidatorInfo")
 			okW := len(it) == 1
@@ -464,7 +543,7 @@ func init() {
 				for _, b := range fn.Blocks {
 					for _, in := range b.Instrs {
 						if st, ok := in.(*ssa.Store); ok {
-							if al, ok := rootAlloc(st.Addr); ok && al.Comment == "asset" {
+							if al, ok := rootAlloc(st.Addr); ok && al == storedAlloc {
 								if _, isF := st.Addr.(*ssa.FieldAddr); isF && fa.Reaches(st, it[0]) {
 									okW = false
 								}
